@@ -19,6 +19,7 @@ DECIDED = ("R1 dispatch: no checker -> all six piece generators without check re
            "on the capture rank and adjacent files, pinned or not; R6 the promotion flag is `source rank == the mover's seventh rank`.")
 DECIDED = DECIDED + ' R6 (numbered apart from the clause above) premise re-run here: the cached `checkers` / `pinned` sets the generator filters by are computed exactly, from scratch and incrementally (C03.R3, R5, R6).'
 DECIDED = DECIDED + ' R3 also: the king-step filter may be an explicit loop or `.filter(|d| board.is_legal_king_position(d)).collect()` (closure evaluated); the ray scan of is_legal_king_position may be a loop or `.any(closure)`; the castling (side, files, safe files) table is compared by value wherever it is written; the final emptiness tests are decided over the 8 emptiness combinations of the three attacker sets. R2: check_mask takes the king square or looks it up itself (own king of the side to move). R5: `x == 0` / `x != 0` tests normalised.'
+DECIDED = DECIDED + ' R90 premises re-run here: C09 C09.R1, C09.R2, C09.R3; C08 C08.R1, C08.R2; C02 C02.R9.'
 NOT_DECIDED = ("which squares actually come out on a given position: the meaning of the bitboard formulas on real boards is not decided statically (the lookups themselves are C08/C09); "
                "'each exactly once' relies on C10's entry list semantics")
 EXPLANATION = ("K4 path summaries with the generic-iteration abstraction: for each generator the iteration domain, the pushed entry and its guards are extracted as terms and compared, "
@@ -620,6 +621,16 @@ def r5(ctx):
         ctx.ob(f"ep[{tname}] entry#{n}", canon(mv) == canon(bit(tgt_sq)) and ef.get("promotion") == T.FALSE, f"en-passant entry destinations {T.show(mv)[:120]}; expected exactly the target square",
                site=site)
     ctx.floor("en-passant push paths", n, 2)
+
+
+@rule("C01.R90", 'premises shared with other properties: C09 (C09.R1, C09.R2, C09.R3); C08 (C08.R1, C08.R2); C02 (C02.R9)')
+def r_premises_shared(ctx):
+    """This property's argument rests on these rules of other properties (what it calls is assumed to behave); they are re-run here so that a
+    breakage of one of them is reported by this property's own check as well."""
+    from analysis.runner import premise
+    premise(ctx, 'C09', ['C09.R1', 'C09.R2', 'C09.R3'] and set(['C09.R1', 'C09.R2', 'C09.R3']), 'the generator reads these geometry tables and pawn helpers; one of them no longer equals its definition')
+    premise(ctx, 'C08', ['C08.R1', 'C08.R2'] and set(['C08.R1', 'C08.R2']), 'slider moves come from the magic lookups; the lookup no longer equals ray casting')
+    premise(ctx, 'C02', ['C02.R9'] and set(['C02.R9']), 'is_legal(mv) is membership of mv in the generated list under ChessMove equality; that equality is no longer field-by-field')
 
 
 # ------------------------------------------------------------------ controls
